@@ -269,3 +269,47 @@ _add("C18",
      text="Premise of idempotence checked: no decision of the title-case module reads the current letter case; a violation is reported as undecided (idempotence itself is a value property).")
 _add("C19",
      text="Also decided: a batch-writing form of Stats::write (join) must terminate the last record.")
+
+# ---- wave 4 (seed round 6, 2026-09-27)
+_add("C01",
+     text="Also decided: a rule body that switches on the number of matched tokens and panics in the default arm belongs to a pattern without variable-length steps (found and repaired the ModalOf panic on a blank followed by a line break); every integer division on the parsing and linting paths has a divisor that is a non-zero constant or is tested against zero first.",
+     technique="pattern-shape vs. panic-arm rule over all PatternLinter bodies; divisor provenance (counter / element count) with dominating zero test")
+_add("C02",
+     text="Also decided: a merge run of the newline condenser advances its index once per examined token (found and repaired a skipped token that ended up inside the merged newline token), and where a front end falls back to a length when position() finds nothing, it is the length of the slice that was searched.",
+     technique="increment count over the cycles of the merge loop; same-slice rule for position(..).unwrap_or(len)")
+_add("C03",
+     text="Also decided: in the rules no byte length or byte position of a string reaches a lint span unconverted.",
+     technique="byte-quantity taint rule over harper_core::linting")
+_add("C04",
+     text="Also decided: the git-commit front end hands on a prefix of the file that ends where a forward search for git's comment character first succeeds - not the whole file and not a cut found from the end.",
+     technique="provenance of the cut handed to the inner parser")
+_add("C05",
+     text="Also decided: the field harper-ls compares with the freshly generated dictionary to decide on a rebuild holds nothing but such a dictionary (found and repaired: identifiers of a source file were flagged from its second update on); the WebAssembly linter rebuilds after import_words guarded at most by 'the dictionary grew'.",
+     technique="writers-agree rule for the compared field; rule instance shared with C16")
+_add("C06",
+     text="Also decided: the pattern that glues word-apostrophe-word into one token has no repetition step (the greedy matcher would run it into a closing quote).",
+     technique="pattern-shape rule for the contraction pattern")
+_add("C08",
+     text="Also decided: every keyed access to the table of open documents uses the request's URI through copying conversions only (no case-folded or trimmed key under which two documents would share one state).",
+     technique="key provenance over all accesses to the document table")
+_add("C11",
+     text="Also decided: every path through fill_with_curated reaches the merge, or its bypass is selected by looking at individual entries (undecided) - a bypass chosen by sizes and values alone is refuted.",
+     technique="must-pass-through over fill_with_curated")
+_add("C12",
+     text="Also decided: a lexer's forward searches over the uncut input end at a line break at the latest, or the lexer gives up when the search fails (found and repaired: an '@' anywhere later in the text cut a URL down to its scheme).",
+     technique="closure predicates of position/find/take_while evaluated on a line break")
+_add("C14",
+     text="Also decided: harper-ls never takes an open document's state out of its table and then builds it anew (the ignore list lives in that state).",
+     technique="remove-then-rebuild rule over the document table")
+_add("C15",
+     text="Also decided: the two Levenshtein automata of the FST back-end are built from one and the same normalised query, as their positional merge requires.",
+     technique="same-source rule for the two automaton queries")
+_add("C16",
+     text="Also decided: the non-overlap clause, through the C13 rules on remove_overlaps and its placement in Linter::lint.",
+     technique="rule instances shared with C13")
+_add("C17",
+     text="Also decided: number values are written only by the number lexers, and behind the lexer only the suffix is assigned, by the suffix-condensing pass.",
+     technique="who-may-write census for Number")
+_add("C18",
+     text="Also decided: every iteration of the word loop reaches the first-word test (or upper-cases anyway) before the next starts.",
+     technique="must-pass-through over the word loop")
